@@ -94,3 +94,27 @@ fn device_with_damaged_metadata_is_rejected_byte_identical() {
 
     assert_rejected_and_untouched(&path, "device with damaged metadata");
 }
+
+/// A signature-less file whose only non-zero content sits anywhere – first byte, middle, last scan chunk, last
+/// byte – is not a blank device: it must be rejected and left untouched, whatever the device size is relative to
+/// the scan's chunking. An all-zero file of the same size IS a blank device and opens.
+#[test]
+fn sparse_foreign_content_is_never_mistaken_for_a_blank_device() {
+    const MIB: usize = 1024 * 1024;
+    for size in [MIB, 2 * MIB, 3 * MIB, 2 * MIB + 5 * BLOCK, MIB + BLOCK, 4 * MIB - BLOCK] {
+        let positions = [0usize, 9, BLOCK, size / 2, size - MIB / 2, size - MIB, size - BLOCK, size - BLOCK - 1, size - 1];
+        for &pos in positions.iter().filter(|p| **p < size) {
+            let temp_file = NamedTempFile::new().unwrap();
+            let path = temp_file.path().to_str().unwrap().to_string();
+            let mut image = vec![0u8; size];
+            image[pos] = 0xa5;
+            std::fs::write(&path, &image).unwrap();
+            assert_rejected_and_untouched(&path, &format!("size {size}, single non-zero byte at {pos}"));
+        }
+        let temp_file = NamedTempFile::new().unwrap();
+        let path = temp_file.path().to_str().unwrap().to_string();
+        std::fs::write(&path, vec![0u8; size]).unwrap();
+        let store = FeoxStore::builder().hash_bits(4).device_path(path.clone()).enable_caching(false).build();
+        assert!(store.is_ok(), "size {size}: an all-zero file of a valid device size was not accepted as a blank device");
+    }
+}
